@@ -193,9 +193,9 @@ def gen_history(rnd, cfg, spare, d, regime, n_ops, arm_changes=True, warm=False,
     npol = cfg.get("np")
     need = 1
     if npol and npol[0] == "KNearest":
-        need = npol[1]["k"]
+        need = npol[1].get("k", 1)
     if npol and npol[0] == "Clusters":
-        need = npol[1]["n_clusters"] + 1
+        need = npol[1].get("n_clusters", 2) + 1
     stored = []
     ops = []
 
